@@ -1722,11 +1722,15 @@ where
                 .collect::<Vec<_>>()
         };
         format!(
-            "imports={:?};transform_on={};slot_helper={};define_component={};pragma={:?};vars={:?};consts={:?};slot_counter={};slot_flags={:?};assignment_left={:?};interfaces={:?};type_aliases={:?}",
+            "imports={:?};transform_on={};slot_helper={};define_component={};fragment_aliases={:?};pragma={:?};vars={:?};consts={:?};slot_counter={};slot_flags={:?};assignment_left={:?};interfaces={:?};type_aliases={:?}",
             self.vue_imports.keys().collect::<Vec<_>>(),
             self.transform_on_helper.is_some(),
             self.slot_helper_ident.is_some(),
             self.define_component.is_some(),
+            self.fragment_aliases
+                .iter()
+                .map(|id| id.0.to_string())
+                .collect::<Vec<_>>(),
             self.pragma,
             decl_names(&self.injecting_vars),
             decl_names(&self.injecting_consts),
